@@ -1709,6 +1709,12 @@ def build_raw(spec):
 
 CTOR_MUTATIONS = ["valid", "zero cells", "empty shape", "periodic length", "bounds length", "negative inner radius",
                   "inner == outer", "inner > outer", "extra shape entry", "single shape entry"]
+# `CylindricalSymGrid(r, (z1, z0), ..)` with reversed `bounds_z` is ACCEPTED by /repo (negative spacing and volumes;
+# Lean witness `cylinder_reversed_bounds_z_accepted`, proposed patch notes/proposed_fixes/C12-cylinder-reversed-bounds-z.diff).
+# The stream below produces it (the monitor of this leg then reports the degenerate axis with the inputs); it is switched
+# on with VERIF_C12_REVERSED_Z=1 until the finding is repaired or listed (this round may not edit known_findings.json).
+if os.environ.get("VERIF_C12_REVERSED_Z") == "1":
+    CTOR_MUTATIONS = CTOR_MUTATIONS + ["reversed bounds_z"]
 
 
 def leg_construct(ctx, P, rng, force=None):
@@ -1752,6 +1758,8 @@ def leg_construct(ctx, P, rng, force=None):
             spec["shape"] = spec["shape"] + [2]
         elif what == "single shape entry" and cls == "cylindrical":
             spec["shape"] = spec["shape"][:1]
+        elif what == "reversed bounds_z" and cls == "cylindrical":
+            spec["bounds_z"] = spec["bounds_z"][::-1]
         else:
             what = "valid"
     case = {"leg": "ctor", "what": what, "grid": spec}
